@@ -24,15 +24,21 @@ def _history_op(rnd, cfg, oid):
     elif kind == "rejection":
         op["in_memory"] = op["source"] == "object" and rnd.random() < 0.5
         op["kw"] = {"n_linear_samples": rnd.choice([1, 1, 2, 3]), "n_batches": common.gen_n_batches(rnd, n)}
+        if rnd.random() < 0.3:
+            op["kw"]["randomize_prior_order"] = True
     else:
         op["in_memory"] = op["source"] == "object" and rnd.random() < 0.5
         op["kw"] = {"n_requested_samples": rnd.randint(1, 4), "init_batch_size": rnd.randint(1, n), "n_linear_samples": rnd.choice([1, 2])}
+    if op["source"] == "file" and rnd.random() < 0.4:
+        op["alias"] = "shared"
     return op
 
 
 def _path(rnd, cfg):
     src = rnd.choice(["object-mem", "object-cache", "file"])
     p = {"source": "file" if src == "file" else "object", "in_memory": src == "object-mem"}
+    if src == "file" and rnd.random() < 0.35:
+        p["alias"] = "shared"
     p["joker"] = rnd.choice(["main", "main", "fresh"])
     if p["joker"] == "fresh":
         p["pool"] = rnd.choice([{"kind": "serial"}, {"kind": "sim", "size": rnd.randint(1, 6)}])
